@@ -1434,7 +1434,7 @@ def fault_inputs(rep, work, b, tier, seed, mode, nseeds, nhavoc, classes=None, w
     with open(ff, "a") as f:
         f.write(open(fp).read())
     many = work.path("seeds3.ndjson")
-    gen(b, many, "struct", seed + 2, max(4, nseeds))
+    gen(b, many, "manycels", seed + 2, max(16, nseeds))
     kw = work.path("kindwide.ndjson")
     faults(b, many, kw, "kindwide", seed, mode=mode)
     with open(ff, "a") as f:
